@@ -108,7 +108,10 @@ where
             ensure!(e0 > 0.0 && e0.is_finite(), "stepsize-initial-not-finite", "initial step size {e0}");
             eps0 = Some(e0);
             // independent implementation of the heuristic, fed the momentum the chain drew
-            if !c.spec.bounded() {
+            // (half-line / box give -inf with a finite gradient outside the support: there the
+            // library's back-off loop, which needs BOTH to be non-finite, differs from the cited
+            // Python variant, and the statement does not say which is meant)
+            if !matches!(c.spec, Spec::HalfLine { .. } | Spec::BoxGauss { .. }) {
                 let mut r0 = SmallRng::seed_from_u64(c.seed);
                 let p0: Vec<f64> = (&mut r0).sample_iter(StandardNormal).take(start_r.len()).map(|v: T| f(v)).collect();
                 let (ea, ma) = rn::find_reasonable_epsilon(&c.spec, &start_r, &p0, false);
